@@ -7,12 +7,13 @@ N=${1:-120}
 H=$(tools/simbuild.sh 2>/dev/null) || { echo "build failed"; exit 2; }
 D=$(mktemp -d -p /dev/shm verif-det.XXXX); trap 'rm -rf $D' EXIT
 rc=0
-for spec in "crashsim C01" "crashsim C20" "sqlsim C09" "sqlsim C10" "sqlsim C06" "sqlsim C11" "sqlsim C03" "txnsim C04" "consim C12" "consim C04" "consim C17" "consim C16" "pagesim C15" "locksim C16" "bpmsim C13" "idxsim C17"; do
+for spec in "crashsim C01" "crashsim C20" "sqlsim C09" "sqlsim C10" "sqlsim C06" "sqlsim C11" "sqlsim C03" "txnsim C04" "consim C12" "consim C04" "consim C17" "consim C16" "consim C13" "consim C08" "crashsim C10" "pagesim C15" "locksim C16" "bpmsim C13" "idxsim C17"; do
   set -- $spec; drv=$1; prop=$2
+  n=$N; [ $drv = crashsim ] && n=$(( (N+3)/4 ))   # crash explorations are two orders of magnitude slower per run
   i=0
   for g in 1 4 16 2; do
     i=$((i+1))
-    ( GOMAXPROCS=$g timeout 900 $H $drv -prop $prop -seed 424242 -start 0 -runs $N -det 2>/dev/null | grep '^DET' > $D/$drv.$prop.$i ) &
+    ( GOMAXPROCS=$g timeout 900 $H $drv -prop $prop -seed 424242 -start 0 -runs $n -det 2>/dev/null | grep '^DET' > $D/$drv.$prop.$i ) &
   done
   wait
   ok=1
